@@ -8,7 +8,19 @@ from vlib import build  # noqa: E402
 from vlib.common import log  # noqa: E402
 
 
+def regenerate():
+    """Every generated Lean fragment (lean/OVM/Gen) from /repo's current sources: the committed
+    copies are only a convenience, the checks regenerate their own fragment again on every run."""
+    import importlib
+    for name in ("t1_handles", "t2_hextables", "t3_tetlabels", "t4_ovmb_consts", "t5_footprint"):
+        try:
+            importlib.import_module(name).generate()
+        except Exception as e:  # the check that owns the fragment reports it (fails closed there)
+            log("[setup] translator %s failed: %s" % (name, str(e)[:500]))
+
+
 def main():
+    regenerate()
     ok, lg = build.lake_build()
     if not ok:
         log(lg[-5000:])
